@@ -78,7 +78,10 @@ def handleNcch (cmd : String) (args : List SExp) : String :=
     match f.bytes?, st.nat?, seedOf sd, asm.nat?, dv.nat?, bl.bytes? with
     | some file, some start, some seed, some a, some d, some blob =>
       match ncchOpen file start seed (a == 1) (d == 1) blob with
-      | .ok s => if regionsApart s then "apart" else "overlap"
+      | .ok s =>
+        -- all hypotheses of C04_one_image_checked for the whole content
+        let n := match s.region? secFull with | some r => r.size / 0x200 | none => 0
+        if readGeomB aesE s file start n then "regular" else if regionsApart s then "apart-only" else "overlap"
       | .error e => "e:" ++ e.name
     | _, _, _, _, _, _ => "bad-args"
   | "ncch-open", [f, st, sd, asm, dv, bl] =>
